@@ -217,10 +217,12 @@ def host_info(src, reg):
                 break
     # scope that encloses the outermost lambda / comprehension around the region
     inner_in = None
+    inner_decorated = False
     if target is not None:
         for a in srcpos.ancestors(target):
             if isinstance(a, (ast.FunctionDef, ast.AsyncFunctionDef)):
                 inner_in = "function"
+                inner_decorated = bool(a.decorator_list)
                 break
             if isinstance(a, ast.ClassDef):
                 inner_in = "class"
@@ -228,6 +230,7 @@ def host_info(src, reg):
         else:
             inner_in = "module"
     return {"comp_self": comp_self, "reads_inner": reads_inner, "exact_expr": target is not None, "inner_in": inner_in,
+            "inner_decorated": inner_decorated,
             "walrus": any(isinstance(n, ast.NamedExpr) for n in scope_nodes),
             "annassign": any(isinstance(n, ast.AnnAssign) for n in scope_nodes),
             "unannotated": unannotated, "super_in_region": "super" in region_text,
@@ -265,7 +268,8 @@ def hostile_labels(reg, kind, host, opts):
         labels.append("global-option")
     if opts["ekind"]:
         labels.append("kind-option")
-    if reg["scope"] in ("classmethod", "staticmethod", "property"):
+    if reg["scope"] in ("classmethod", "staticmethod", "property") or (
+            reg["scope"] in ("lambda", "comprehension") and host.get("inner_decorated")):
         labels.append("decorated-host")
     if "While.test" in ctx:
         labels.append("loop-test")
